@@ -162,6 +162,8 @@ class Monitor:
 
     def on_return(self, rv: Any) -> None:
         env = self.env
+        if not self.must_fail and not self.shutdown_seen:
+            self.flag("C17:supervision-stopped-without-cause", f"start() returned {rv!r} although neither the failure budget ({self.budget} of {env.max_fails}) was exhausted nor a shutdown was handled: dead workers are no longer replaced")
         if rv == -1 and rv is not None:
             if not self.must_fail:
                 self.flag("C18:failure-status-without-exhausted-budget", f"start() returned -1 with {self.budget} handled failure restarts, max_fails={env.max_fails}")
@@ -178,6 +180,10 @@ class Monitor:
             self.flag("C18:unknown-status", f"start() returned {rv!r}")
 
     def on_raise(self, exc: BaseException) -> None:
+        self.flag("C17:supervision-stopped-without-cause", f"start() raised {type(exc).__name__}: workers are no longer supervised")
+        self._on_raise_c18(exc)
+
+    def _on_raise_c18(self, exc: BaseException) -> None:
         if isinstance(exc, ProcessLookupError) and self.shutdown_seen:
             self.flag("C18:D9-dead-worker-signalled-on-shutdown", f"start() crashed with {type(exc).__name__} while signalling workers on shutdown")
         else:
